@@ -31,7 +31,7 @@ type Mux struct {
 
 	maxParams int
 	storePool sync.Pool
-	storeID   uint64
+	storeID   atomic.Uint64 // atomic.Uint64 is 64-bit aligned on every platform, a plain uint64 field here is not on 32-bit ones
 
 	relayHandler  HandlerFunc
 	routeNotFound *RouteInfo
@@ -67,7 +67,7 @@ func (mux *Mux) ServeHTTP(w http.ResponseWriter, r *http.Request) {
 	store := mux.storePool.Get().(*Store)
 	store.W.Origin = w
 	store.R = r
-	store.id = strconv.AppendUint(store.id, atomic.AddUint64(&mux.storeID, 1), 36)
+	store.id = strconv.AppendUint(store.id, mux.storeID.Add(1), 36)
 
 	if info := findRoute(mux.root, r.URL.Path, r.Method, store.P); info != nil {
 		store.I = info
